@@ -363,6 +363,8 @@ BOUNDARY_STRINGS = [
     "CH4/(1-2)(1-3)(1-4)(1-5)/(1:mass=13,rad=2)",
     "CH4/(1-2)(1-3)(1-4)(1-5)/(1:mass=13)(1:rad=2)",
     "CH4/(1-2)(1-3)(1-4)(1-5)/(1:mass=13)(1:mass=14)",
+    "CH4/(1-5)/(1:mass=2,rad=3,rad=4,mass=5)",
+    "CH4/(1-5)/(1:rad=3,mass=2,mass=5,rad=4)",
     "CH4/(1-2)(1-3)(1-4)(1-5)/(1:mass=0)",
     "CH4/(1-2)(1-3)(1-4)(1-5)/(6:mass=2)",
     "CH4/(1-2)(1-3)(1-4)(1-5)/(2:mass=2)(3:mass=3)",
@@ -438,8 +440,18 @@ def semantic_reject(s, rng):
         return s + "/(1-1)"
     tuples = _TUPLE.findall(parts[1])
     n = max([int(x) for t in tuples for x in t] + [1])
-    k = rng.randrange(4)
-    if k == 0:
+    k = rng.randrange(5)
+    if k == 4:
+        # one attribute tuple that repeats BOTH keys (which repetition is reported?)
+        i = rng.randint(1, n)
+        kv = [f"mass={rng.randint(1, 9)}", f"rad={rng.randint(1, 3)}", f"rad={rng.randint(1, 3)}", f"mass={rng.randint(1, 9)}"]
+        rng.shuffle(kv)
+        extra = f"({i}:{','.join(kv)})"
+        if len(parts) > 2:
+            parts[2] = parts[2] + extra if rng.random() < 0.5 else extra + parts[2]
+        else:
+            parts.append(extra)
+    elif k == 0:
         i = rng.randint(1, n)
         tuples.insert(rng.randrange(len(tuples) + 1), (str(i), str(i)))
         parts[1] = "".join(f"({a}-{b})" for a, b in tuples)
@@ -987,6 +999,12 @@ def gen_spec(run_seed, prop, pool, hashseeds, knobs=None):
     mult["rewrite_p"] = rng.choice([0.3, 0.6, 0.9])
     mult["file_p"] = rng.choice([0.05, 0.10, 0.10, 0.35])
     palette = [rng.choice([0.0, 0.5, 0.25, 0.999999, 0.42, round(rng.random(), 2), rng.random()]) for _ in range(rng.randint(1, 3))]
+    if rng.random() < 0.3:
+        # seeds that differ only far behind the decimal point (0.1 + 0.2 vs 0.3 style)
+        s0 = rng.choice(palette)
+        palette.append(rng.choice([s0 + 1e-12, s0 + 3e-11, s0 * (1 + 2e-16) if s0 else 5e-324, 0.1 + 0.2 if s0 == 0.3 else s0 + 1e-15]))
+        if rng.random() < 0.3:
+            palette += [0.3, 0.1 + 0.2]
     # a molecule and its redrawing (same skeleton and atom order) often meet in one run
     for t in list(mols):
         r = pool.redrawn.get(t)
